@@ -30,9 +30,6 @@ THEOREMS = [
     "C19_cuid_clock_back_refuted", "C19_cuid_burst_refuted",
 ]
 
-CLOSURE = {"Gen/Consts.v", "Model/Base.v", "Model/Ids.v", "Proofs/BaseLemmas.v", "Proofs/IdsLaws.v",
-           "Proofs/IdsLaws2.v", "Proofs/IdsLaws3.v", "Properties/C19.v"}
-
 B62 = "0123456789ABCDEFGHIJKLMNOPQRSTUVWXYZabcdefghijklmnopqrstuvwxyz"
 B62SET = set(B62)
 REF_MS = 1483228800000          # 2017-01-01T00:00:00Z in Unix milliseconds
@@ -278,10 +275,10 @@ def plan(chk):
     t = chk.tier == "thorough"
     s = chk.seed
     jobs = {
-        "sid": [("sid", s, 5000 if t else 400, "")],
-        "cookie": [("cookie", s, 6000 if t else 600, "")],
-        "rid": [("rid", s, 400 if t else 60, "mode=spread")],
-        "cuid": [("cuid", s, 8000 if t else 800, "burst=%d burstcoq=1" % (70000 if t else 600))] +
+        "sid": [("sid", s, 5000 if t else 600, "")],
+        "cookie": [("cookie", s, 6000 if t else 1000, "")],
+        "rid": [("rid", s, 400 if t else 120, "mode=spread")],
+        "cuid": [("cuid", s, 8000 if t else 1600, "burst=%d burstcoq=1" % (70000 if t else 600))] +
                 ([] if t else [("cuid", s, 0, "only=burst burst=70000 burstcoq=0")]),
         "cuidconc": [("cuidconc", s, 1, "mode=frozen per=40 ks=%s" % ("all" if t else "some")),
                      ("cuidconc", s + 1, 1, "mode=real per=%d ks=%s" % (2000 if t else 300, "all" if t else "some"))],
@@ -299,14 +296,7 @@ def run(chk):
     timings = {}
     t0 = time.time()
     ok, out = vlib.standard_proof_stage(chk, "C19", THEOREMS)
-    # The scan for Admitted/Axiom/... covers the whole development; for this
-    # property only hits in the files its theorems are built from count (Print
-    # Assumptions already shows every axiom the theorems depend on).
-    bad_here = [b for b in chk.coverage.get("forbidden_scan", []) if b.split(":")[0] in CLOSURE]
-    theorems_ok = all(okk for name, okk in chk.obligations if name in THEOREMS) and \
-        {name for name, _ in chk.obligations} >= set(THEOREMS)
-    proof_ok = ok or (theorems_ok and not bad_here)
-    chk.coverage["forbidden_scan_in_closure"] = bad_here
+    proof_ok = ok
     timings["proof_stage_s"] = round(time.time() - t0, 1)
     t0 = time.time()
     binary, blog = vlib.build_harness()
